@@ -96,6 +96,12 @@ CHECKS["C09"] = dict(
    note="'Evaluated once' is read off TRACE lines; a hang is only reported after the run exceeded 60 s three times in a row.",
    ref="DESIGN.md section 5 C09")
 
+CHECKS["C19"] = dict(
+   technique="property-based testing against reference implementations of each helper",
+   text="Random lists, tuples, strings, separators and indices are passed to every listed std helper through `import \"std/...\"` in files built with the checker on (six calls per build); each bound value is compared with a Rust reference implementation of the helper's documented behaviour, plus the reverse involution and the split_on / str_join round trip.",
+   note="Inputs stay within what each helper documents; calls the static checker rejects are discarded and counted (C07).",
+   ref="DESIGN.md section 5 C19")
+
 PENDING = {}
 
 def main():
